@@ -41,8 +41,8 @@ def cap(medium, nu):
     return MARGIN*MEASURED[(medium, nu)]
 
 
-def need(medium, nu):
-    return int(math.ceil(math.log(TOL)/math.log(cap(medium, nu))))
+def need(medium, nu, tol=TOL):
+    return int(math.ceil(math.log(tol)/math.log(cap(medium, nu))))
 
 
 def _solve(cfg):
@@ -51,7 +51,8 @@ def _solve(cfg):
     warnings.filterwarnings("ignore")
     import numpy as np
     import emg3d
-    shape, cycle, medium, freq, nu = cfg
+    shape, cycle, medium, freq, nu = cfg[:5]
+    tol = cfg[5] if len(cfg) > 5 else TOL
     L = 3200.0
     h = [np.ones(n)*L/max(shape) for n in shape]
     grid = emg3d.TensorMesh(h, [-a.sum()/2 for a in h])
@@ -67,7 +68,7 @@ def _solve(cfg):
     _, info = emg3d.solve(
         model, sf, sslsolver=False, semicoarsening=False,
         linerelaxation=False, cycle=cycle, nu_init=0, nu_pre=nu, nu_coarse=1,
-        nu_post=nu, tol=TOL, maxit=50, verb=-1, return_info=True)
+        nu_post=nu, tol=tol, maxit=50, verb=-1, return_info=True)
     e = np.array(info['error_at_cycle'], dtype=float)/info['ref_error']
     r = (e[1:]/e[:-1]).tolist()
     return {"cfg": list(cfg), "ratios": r, "it": int(info['it_mg']),
@@ -107,15 +108,22 @@ def run(tier, replay=None):
         with open(replay) as f:
             c = json.load(f)["case"]["cfg"]
         b = (c[1], c[2], c[3], c[4])
-        cfgs = [((16, 16, 16), *b), (tuple(c[0]), *b)]
+        cfgs = [((16, 16, 16), *b, *c[5:]), (tuple(c[0]), *b, *c[5:])]
     else:
         cfgs = [((n, n, n), *b) for b in base for n in (8, 16, 32)]
+        # non-cubic 2^a x 3 2^b x 5 2^c shapes (fewer cells in x than in y)
+        cfgs += [(shp, *b) for b in base if b[3] == 2
+                 for shp in ((8, 12, 20), (16, 24, 40))]
         big = base if tier == "thorough" else rng.sample(base, 8)
         cfgs += [((64, 64, 64), *b) for b in big]
         if tier == "thorough":
             for b in base:
                 cfgs.append((rng.choice([(32, 48, 40), (64, 24, 40),
                                          (16, 96, 20), (48, 32, 80)]), *b))
+    if not replay:
+        # "to reach a given tolerance": a second, tighter one
+        cfgs += [((n, n, n), *b, 1e-10) for b in base if b[3] == 2
+                 for n in (16, 32)]
     order = sorted(range(len(cfgs)), key=lambda i: -max(cfgs[i][0]))
     with mp.get_context("fork").Pool(min(C.NCPU, 14)) as pool:
         out = pool.map(_solve, [cfgs[i] for i in order], chunksize=1)
@@ -124,22 +132,26 @@ def run(tier, replay=None):
         results[i] = o
     ref16 = {tuple(r["cfg"][1:]): r for r in results
              if tuple(r["cfg"][0]) == (16, 16, 16)}
+    for r in results:                     # the reference of a tight-tolerance
+        if len(r["cfg"]) > 5:             # run is the 16^3 run of that tolerance
+            ref16.setdefault(tuple(r["cfg"][1:]), r)
     groups = {}
     traces = []
     for k, r in enumerate(results):
-        shape, cycle, medium, freq, nu = r["cfg"]
+        shape, cycle, medium, freq, nu = r["cfg"][:5]
+        tol = r["cfg"][5] if len(r["cfg"]) > 5 else TOL
         cp = cap(medium, nu)
         ev = [{"e": "Cycle", "good": bool(x <= cp)} for x in r["ratios"]]
         ev.append({"e": "End", "conv": r["exit"] == 0})
-        r16 = ref16[(cycle, medium, freq, nu)]
+        r16 = ref16.get(tuple(r["cfg"][1:]), r)
         worst, worst16 = max(r["ratios"]), max(r16["ratios"])
         hindep = True
-        if max(shape) > 16:
+        if max(shape) > 16 and len(set(shape)) == 1:
             hindep = bool(worst <= SLACK*worst16 + 0.01 and
                           r["it"] <= r16["it"] + 2)
         r["worst"], r["worst16"], r["cap"] = worst, worst16, cp
         traces.append({"ev": ev, "hindep": hindep})
-        groups.setdefault(need(medium, nu), []).append(k)
+        groups.setdefault(need(medium, nu, tol), []).append(k)
     nbad = 0
     for nd, idx in sorted(groups.items()):
         bad = dict(C.validate_batch(
@@ -148,10 +160,11 @@ def run(tier, replay=None):
         nbad += len(bad)
         for i, why in sorted(bad.items()):
             r = results[idx[i]]
-            shape, cycle, medium, freq, nu = r["cfg"]
+            shape, cycle, medium, freq, nu = r["cfg"][:5]
             rep.violation(
                 f"C06:trace:{why}:shape={'x'.join(map(str, shape))};"
-                f"cycle={cycle};medium={medium};freq={freq};nu={nu}",
+                f"cycle={cycle};medium={medium};freq={freq};nu={nu};"
+                f"tol={r['cfg'][5] if len(r['cfg']) > 5 else TOL}",
                 f"multigrid on the reference problem: {why}; worst factor "
                 f"{r['worst']:.4f} (cap {r['cap']:.4f}, at 16^3 "
                 f"{r['worst16']:.4f}), {r['it']} cycles (at most "
